@@ -19,7 +19,7 @@ def gen_texts(jlmon, pid, seed, count):
     return [json.loads(l) for l in out.decode("utf8").split("\n") if l.strip()]
 
 
-def libcall(jlmon, pairs):
+def libcall(jlmon, pairs, env=None):
     """Oracle: [(rule_text, data_text)] -> [{"logs": [...], "ret": {...}}].
     One jlmon process answers all requests; its CPU-time watchdog answers `{"hang": true}` for a
     call that exceeds the budget and exits, in which case a new process continues with the rest."""
@@ -28,12 +28,16 @@ def libcall(jlmon, pairs):
     restarts = 0
     while todo:
         inp = "\n".join(json.dumps({"rule": r, "data": d}) for r, d in todo) + "\n"
-        rc, out, err, dt = O.run_cmd([jlmon, "libcall"], stdin=inp.encode("utf8"), timeout=3600)
-        got, logs = [], []
+        rc, out, err, dt = O.run_cmd([jlmon, "libcall"], stdin=inp.encode("utf8"), timeout=3600, env=env)
+        got, logs, shim = [], [], None
         for line in out.decode("utf8", "replace").split("\n"):
-            if line.startswith("@@RET "):
+            if line.startswith("@@SHIM "):
+                shim = json.loads(line[7:])
+            elif line.startswith("@@RET "):
                 got.append({"logs": logs, "ret": json.loads(line[6:])})
-                logs = []
+                if shim is not None:
+                    got[-1]["shim"] = shim
+                logs, shim = [], None
             elif line != "" or logs:
                 logs.append(line)
         res.extend(got)
@@ -495,6 +499,81 @@ def fresh_process_lane(pid, tier, seed, agg, meta):
     O.merge_report(agg, rep, "fresh-process")
     O.lane_record(agg, "fresh-process", "jlmon libcall: one call per fresh process vs the same calls in one process", [rep], [], time.time() - t0)
 
+
+
+# ----------------------------------------------------------------------------------------
+# environment independence (C17): the same calls with the environment, the clock, the random
+# source and the file system answering differently (LD_PRELOAD interposer harness/shim/jlshim.c)
+
+def build_shim():
+    src = os.path.join(O.harness_dir(), "shim", "jlshim.c")
+    d = os.path.join(O.TARGET, "shim")
+    os.makedirs(d, exist_ok=True)
+    so = os.path.join(d, "libjlshim.so")
+    if not os.path.exists(so) or os.path.getmtime(so) < os.path.getmtime(src):
+        rc, out, err, dt = O.run_cmd(["cc", "-shared", "-fPIC", "-O1", "-w", "-o", so, src, "-ldl", "-lpthread"], timeout=300)
+        if rc != 0:
+            raise O.Inconclusive("the interposer library could not be built: %s" % err.decode("utf8", "replace")[-400:])
+    return so
+
+
+def env_lane(pid, tier, seed, agg, meta):
+    jlmon = O.build_lane("relchk")
+    so = build_shim()
+    cases = gen_texts(jlmon, "C17", seed + 2, 1500 if tier == "quick" else 30000)
+    pairs = [(c["rule"], c["data"]) for c in cases]
+    t0 = time.time()
+    plain = libcall(jlmon, pairs)
+    rep = {"evaluations": 0, "monitors": {"c17.environment-independence": {"observed": 0, "judged": 0, "unjudged": 0, "violations": 0}}, "violations": [], "cells": {},
+           "nontrivial_hashes": [], "samples": [], "nontrivial_total": 0, "extra": {"sources_consulted_during_calls": {}}}
+    consulted = rep["extra"]["sources_consulted_during_calls"]
+    m = rep["monitors"]["c17.environment-independence"]
+
+    def one(mode):
+        env = dict(O.BASE_ENV)
+        env["LD_PRELOAD"] = so
+        env["JL_SHIM_MODE"] = mode
+        # the perturbed process starts with a different environment as well (a value read once and kept)
+        if mode != "0":
+            env["JSONLOGIC"] = "1"
+            env["JSON_LOGIC"] = "1"
+            env["JSONLOGIC_RS"] = "1"
+            env["RUST_LOG"] = "trace"
+            env["TZ"] = "Pacific/Kiritimati"
+            env["LANG"] = "tr_TR.UTF-8"
+            env["LC_ALL"] = "tr_TR.UTF-8"
+        return mode, libcall(jlmon, pairs, env=env)
+
+    with ThreadPoolExecutor(max_workers=3) as ex:
+        for mode, got in ex.map(one, ["0", "A", "B"]):
+            armed = sum(1 for g in got if "shim" in g)
+            if armed == 0:
+                raise O.Inconclusive("the interposer was not active in mode %s (LD_PRELOAD ignored?)" % mode)
+            for k, g in enumerate(got):
+                rep["evaluations"] += 1
+                m["observed"] += 1
+                sh = g.get("shim")
+                if sh is None:
+                    m["unjudged"] += 1
+                    continue
+                m["judged"] += 1
+                for name in [x for x in sh.get("names", "").split(";") if x]:
+                    consulted[name] = consulted.get(name, 0) + 1
+                if mode == "A":
+                    rep["nontrivial_hashes"].append(hkey("env", *pairs[k]))
+                    rep["nontrivial_total"] += 1
+                a = {"logs": g["logs"], "ret": g["ret"]}
+                b = {"logs": plain[k]["logs"], "ret": plain[k]["ret"]}
+                if a != b:
+                    m["violations"] += 1
+                    first = (sh.get("names", "").split(";") or [""])[0]
+                    rep["violations"].append({"monitor": "c17.environment-independence", "sig": "result-depends-on-environment:mode-%s:%s" % (mode, first.split("(")[0] or "process-environment"),
+                                              "rule": pairs[k][0], "data": pairs[k][1], "expected": b, "got": a,
+                                              "note": "the same call gave a different result when the environment variables / clock / random source / files answered differently (mode %s; consulted during the call: %s)" % (mode, sh.get("names", "") or "nothing - the dependency was read outside the call"),
+                                              "lane": "env", "direct": False, "count": 1})
+    rep["samples"].append({"modes": ["0 (recording only)", "A", "B"], "calls_per_mode": len(pairs), "sources_consulted_during_calls": dict(consulted)})
+    O.merge_report(agg, rep, "env")
+    O.lane_record(agg, "env", "jlmon libcall under an LD_PRELOAD interposer that perturbs getenv / clocks / getrandom / read-only opens while a call is in flight; results compared with the unperturbed process", [rep], [], time.time() - t0)
 
 # ----------------------------------------------------------------------------------------
 # Python
